@@ -171,6 +171,11 @@ def err_variant(expr):
     e = tail(expr)
     if not isinstance(e, dict):
         return None
+    # `{ return Err(..); }`
+    while e.get("k") == "block" and e.get("expr") is None and e.get("stmts"):
+        last = e["stmts"][-1]
+        e = last["e"] if last.get("k") == "semi" else last
+        e = tail(e)
     if e.get("k") == "ret" and e.get("e"):
         e = tail(e["e"])
     if e.get("k") == "call" and ctor_name(e) and ctor_name(e).endswith("::Err") and e["args"]:
@@ -196,3 +201,45 @@ def short(p):
     if not p:
         return p
     return "::".join(p.split("::")[-2:])
+
+
+# ---- cell expansion of matches over tuples of enums ---------------------------------------------------------
+def _matches(pat_set, value):
+    return "_" in pat_set or value in pat_set
+
+
+def arm_position_sets(pat):
+    """List of alternatives; each alternative is a list (per tuple position) of variant sets. Top-level or-patterns are
+    expanded into alternatives; or-patterns inside a position become a set."""
+    k = pat.get("k")
+    if k == "or":
+        out = []
+        for p in pat["pats"]:
+            out.extend(arm_position_sets(p))
+        return out
+    if k in ("ref", "box", "deref"):
+        return arm_position_sets(pat["pat"])
+    if k == "tuple":
+        return [[pat_variants(p) for p in pat["pats"]]]
+    if k in ("wild", "bind"):
+        return [None]  # matches everything
+    return [[pat_variants(pat)]]
+
+
+def cell_table(match, universes):
+    """universes: list (per position) of value lists. Returns {cell tuple: arm index} with first-match semantics;
+    cells matched by no arm are absent."""
+    import itertools
+    table = {}
+    alts = [(i, arm_position_sets(arm["pat"]), arm.get("guard") is not None) for i, arm in enumerate(match["arms"])]
+    for cell in itertools.product(*universes):
+        for i, sets, guarded in alts:
+            hit = False
+            for alt in sets:
+                if alt is None or (len(alt) == len(cell) and all(_matches(s, v) for s, v in zip(alt, cell))):
+                    hit = True
+                    break
+            if hit and not guarded:
+                table[cell] = i
+                break
+    return table
